@@ -4,7 +4,7 @@
    Runtime part outside the model (labelled partial, exercised by harness/cmd/c06): the goroutine that takes updates from
    the channel, the one-shot waiter channel (Done called exactly once, value + close), timing. *)
 From Coq Require Import List NArith Bool.
-From Gluon Require Import Model.ConnUpdates Proofs.ConnUpdatesProofs.
+From Gluon Require Import Model.ConnUpdates Proofs.ConnUpdatesProofs Gen.FactsConnUpdates.
 Import ListNotations.
 Open Scope N_scope.
 
@@ -75,11 +75,39 @@ Print Assumptions C06_uidvalidity_bump_touches_only_uidvalidity.
 
 (* ---- a valid update is applied successfully and produces exactly the change it describes ---- *)
 Theorem C06_mailbox_created_effect : forall s e rid name v vs,
-  rid <> cu_recovery_rid -> cu_find_mb_rid s rid = None -> cu_find_mb_name s name = None -> e_uidv e = v :: vs ->
+  rid <> cu_recovery_rid -> cu_find_mb_rid s rid = None -> cu_find_mb_name s (cu_canon_name name) = None -> e_uidv e = v :: vs ->
   cu_apply s e (UMailboxCreated rid name) =
-    (mkSt (st_mb s ++ [mkMb (st_nextmb s) rid name v true]) (st_ms s) (st_me s) (st_seq s) (st_nextmb s + 1) (st_dsub s), AOk, []).
+    (mkSt (st_mb s ++ [mkMb (st_nextmb s) rid (cu_canon_name name) v true]) (st_ms s) (st_me s) (st_seq s) (st_nextmb s + 1) (st_dsub s), AOk, []).
 Proof. exact mailbox_created_effect. Qed.
 Print Assumptions C06_mailbox_created_effect.
+
+(* T1: what the translator reads from connector_updates.go on every run: applyMailboxUpdated compares the names EXACTLY
+   (a change of letter case is a rename) and applyMessageMailboxesUpdated queues the membership updates before the flag
+   updates *)
+Theorem C06_source_facts : mailbox_rename_compares_exactly = true /\ mailbox_updates_before_flag_updates = true.
+Proof. exact (conj eq_refl eq_refl). Qed.
+Print Assumptions C06_source_facts.
+
+(* a MailboxUpdated whose canonical name differs from the stored one in any way — letter case included — renames the
+   mailbox (and only it; identity, UIDVALIDITY, subscription, messages and UIDs stay) *)
+Theorem C06_mailbox_updated_effect : forall s e rid name m, rid <> cu_recovery_rid -> cu_find_mb_rid s rid = Some m ->
+  mb_name m <> cu_canon_name name ->
+  existsb (fun x => (mb_name x =? cu_canon_name name) && negb (mb_rid x =? rid)) (st_mb s) = false ->
+  exists s1 m1, cu_apply s e (UMailboxUpdated rid name) = (s1, AOk, []) /\ cu_find_mb_rid s1 rid = Some m1 /\
+    mb_name m1 = cu_canon_name name /\ mb_id m1 = mb_id m /\ mb_uidv m1 = mb_uidv m /\ mb_sub m1 = mb_sub m /\
+    st_ms s1 = st_ms s /\ st_me s1 = st_me s /\ st_seq s1 = st_seq s /\
+    (forall x, In x (st_mb s) -> mb_rid x <> rid -> In x (st_mb s1)).
+Proof. exact mailbox_updated_effect. Qed.
+Print Assumptions C06_mailbox_updated_effect.
+
+(* MessageMailboxesUpdated queues its state updates in this order: first everything about membership (EXISTS for the
+   mailboxes the message enters, EXPUNGE for those it leaves), then the flag changes — a session that has a destination
+   mailbox selected learns the message before its new flags *)
+Theorem C06_mailboxes_updated_membership_before_flags : forall s e rid mboxes flags s1 sus,
+  cu_tx s e (UMessageMailboxesUpdated rid mboxes flags) = Some (s1, sus) ->
+  exists a b, sus = a ++ b /\ forallb su_membership a = true /\ forallb su_flag b = true.
+Proof. exact mailboxes_updated_order. Qed.
+Print Assumptions C06_mailboxes_updated_membership_before_flags.
 
 Theorem C06_mailbox_deleted_effect : forall s e rid m, rid <> cu_recovery_rid -> cu_find_mb_rid s rid = Some m ->
   exists s1, cu_apply s e (UMailboxDeleted rid) = (s1, AOk, [SuMailboxDeleted (mb_id m)]) /\
